@@ -225,6 +225,7 @@ def run(ctx: Ctx) -> None:
     asyncio.run(end_to_end(ctx, 150 if thorough else 40))
     delete_correspondence(ctx, built)
     deferred_correspondence(ctx, built, 120 if ctx.tier == "thorough" else 40)
+    gw.run_async(config_updates, ctx, 60 if ctx.tier == "thorough" else 16)
 
 
 async def end_to_end(ctx: Ctx, trials: int) -> None:
@@ -411,6 +412,55 @@ def delete_correspondence(ctx: Ctx, built: bool) -> None:
     ctx.obligation("correspondence:delete", not bad and len(rows) == len(cases), "correspondence",
                    f"{len(bad)} of {len(cases)} differ; first: store {cases[bad[0]][0]} delete {cases[bad[0]][1]}: model {rows[bad[0]]} implementation {cases[bad[0]][2]}" if bad or len(rows) != len(cases)
                    else f"{len(cases)} deletions on real controller / system / zone stores agree with sdel")
+
+
+async def config_updates(ctx: Ctx, trials: int) -> None:
+    """Latest wins for a zone's configuration: the controller's hourly I|000A array, then (seconds later -- the gateway merges consecutive 000A
+    packets of one controller less than 3 s apart into one array, so the zone is in it twice) a single-element I|000A for one zone, as sent after
+    a W|000A, or the whole array again with one zone changed.  The zone's config view must show the NEWEST values."""
+    from ramses_rf import Gateway  # noqa: PLC0415
+
+    rng = ctx.rng
+    for trial in range(trials):
+        t = dt(2026, 1, 1, 12, 0, 0)
+        lines = [f"{t.isoformat(timespec='microseconds')} 045 RP --- {CTL} {GW} --:------ 0005 004 00080F00"]
+        cfgs = {z: (rng.randrange(500, 2100, 50), rng.randrange(2100, 3500, 50)) for z in range(4)}
+
+        def arr(c):
+            return "".join(f"{z:02X}10{lo:04X}{hi:04X}" for z, (lo, hi) in sorted(c.items()))
+
+        t += td(seconds=5)
+        pl = arr(cfgs)
+        lines.append(f"{t.isoformat(timespec='microseconds')} 045  I --- {CTL} --:------ {CTL} 000A {len(pl) // 2:03d} {pl}")
+        z = rng.randrange(4)
+        new = (rng.randrange(500, 2100, 50), rng.randrange(2100, 3500, 50))
+        while new == cfgs[z]:
+            new = (rng.randrange(500, 2100, 50), rng.randrange(2100, 3500, 50))
+        gap = rng.choice([1.5, 2.0, 2.9, 3.5, 10.0])
+        form = rng.choice(["single", "single", "array"])
+        t += td(seconds=gap)
+        cfgs[z] = new
+        pl = f"{z:02X}10{new[0]:04X}{new[1]:04X}" if form == "single" else arr(cfgs)
+        lines.append(f"{t.isoformat(timespec='microseconds')} 045  I --- {CTL} --:------ {CTL} 000A {len(pl) // 2:03d} {pl}")
+        t += td(seconds=1)
+        lines.append(f"{t.isoformat(timespec='microseconds')} 045  I --- 32:000004 --:------ 32:000004 1298 003 000000")
+        g = Gateway(None, input_file=io.TextIOWrapper(io.BytesIO(("\n".join(lines) + "\n").encode())), config={"disable_discovery": True})
+        try:
+            await g.start()
+            for _ in range(10):
+                await asyncio.sleep(0)
+            ctx.case(("config-update", trial, z, gap, form), True, f"config-update:{form}:{'merged' if gap < 3 else 'separate'}")
+            zones = {int(x.idx, 16): x for x in g.tcs.zones} if g.tcs else {}
+            for zz, (lo, hi) in cfgs.items():
+                if zz not in zones:
+                    continue
+                c = zones[zz].config or {}
+                got = (c.get("min_temp"), c.get("max_temp"))
+                if got != (lo / 100, hi / 100):
+                    ctx.violation("latest-not-reported:zone-config", "a zone's config view does not show the most recent 000A values for that zone",
+                                  {"log": [x[27:] for x in lines], "zone": zz, "updated_zone": z, "gap_s": gap, "form": form, "got": list(got), "expected": [lo / 100, hi / 100]}, "history")
+        finally:
+            await g.stop()
 
 
 def delete_rule_shape() -> str:
